@@ -45,6 +45,7 @@ class Model(object):
         self.bx = [None] * NH
         self.hi = [None] * NH  # Holder<int> / Holder<double>: two instantiations of one class template
         self.hd = [None] * NH
+        self.bg = [None] * NH  # class Bag: constructor takes an array
         self.ar = [None] * NH  # Python: instances of the struct Arr {n, vals, name}
         self.caps = [None] * NC  # hand id or None
         self.objs = {}  # oid -> {"value", "alive", "owner"}
@@ -120,7 +121,7 @@ class Model(object):
             self.py_unref(old)
 
     def py_unref(self, hd):
-        if any(x is hd for t in (self.h, self.bx, self.hi, self.hd) for x in t):
+        if any(x is hd for t in (self.h, self.bx, self.hi, self.hd, self.bg) for x in t):
             return
         o = self.objs[hd["oid"]]
         if o["owner"] == "caller" and o["alive"]:
@@ -177,6 +178,41 @@ class Model(object):
             self.hit("release_library_owned")
         hd["released"] = True  # addr is cleared either way
         return self.expect(())
+
+    # ---- Bag
+    def op_bag_new(self, s, n, _t):
+        self.put(self.bg, s, self.fresh(self.new_obj(sum(range(1, n + 1)) + 9000 + n, kind="bag")))
+        return self.expect(())
+
+    def op_bag_total(self, s, _b, _t):
+        return self.expect((self.usable(s, self.bg)["value"],))
+
+    def op_bag_delete(self, s, _b, _t):
+        if self.driver == "py":
+            if self.bg[s] is not None:
+                self.put(self.bg, s, None)
+            return self.expect(())
+        hd = self.handle(s, self.bg)
+        if hd["released"]:
+            return self.expect(())
+        o = self.objs[hd["oid"]]
+        if not o["alive"]:
+            raise Invalid("dangling")
+        o["alive"] = False
+        hd["released"] = True
+        return self.expect(())
+
+    def op_bag_tmp(self, n, _b, _t):
+        # Python: construct from a list, use, drop - in one op
+        self.py_only()
+        oid = self.new_obj(sum(range(1, n + 1)) + 9000 + n, kind="bag")
+        self.objs[oid]["alive"] = False  # (the last reference is dropped inside the op)
+        return self.expect((sum(range(1, n + 1)) + 9000 + n,))
+
+    def op_bad_bag_new(self, _a, _b, _t):
+        # Python: the constructor's list has a wrongly typed element: no instance, nothing left behind
+        self.py_only()
+        return self.expect(None)
 
     # ---- Holder<int>, Holder<double>
     def holder_table(self, k):
@@ -495,10 +531,15 @@ class Model(object):
         import copy
         op = [inner, a, b] + ([text] if text else [])
         self.apply(op)  # must be valid ...
-        once = copy.deepcopy({k: v for k, v in self.__dict__.items() if k != "reach"})
+        def visible():
+            # what a user can observe: slots, live objects, outstanding handouts (not the counters,
+            # not objects that were created and destroyed inside the op)
+            d = {k: v for k, v in self.__dict__.items() if k not in ("reach", "next_oid", "next_hand", "objs")}
+            d["live_objs"] = {k: v for k, v in self.objs.items() if v["alive"]}
+            return copy.deepcopy(d)
+        once = visible()
         self.apply(op)
-        twice = {k: v for k, v in self.__dict__.items() if k != "reach"}
-        if once != twice:
+        if once != visible():
             raise Invalid("op is not idempotent")
         e = self.expect(None)
         e["grow_check"] = True
@@ -811,6 +852,7 @@ OPS_COMMON = ["item_default", "item_val", "item_delete", "item_value", "item_set
               "make_box", "box_new", "box_value",
               "hi_new", "hd_new", "hi_get", "hd_get", "hi_put", "hd_put", "hi_delete", "hd_delete", "arr_weights",
               "pt_sum", "pt_out", "pt_scale", "str_final", "item_add_all", "arr_sum_d",
+              "bag_new", "bag_total", "bag_delete",
               "str_ref", "str_val", "str_val2", "str_val3", "str_owned", "str_lib", "str_in", "str_out", "str_inout",
               "char_out", "char_ret", "char_inout",
               "vec_sum", "vec_iota", "vec_inc", "vec_alloc", "vec_ret", "vec_str_count",
@@ -916,6 +958,17 @@ def gen_op(rng, model, enabled, uniq):
         if not full:
             return ["ar_new", s, rng.choice([0, 1, 2, 5, 16, 40])]
         s = rng.choice(full)
+    if name == "bag_new":
+        return [name, s, rng.choice([0, 1, 2, 5, 16])]
+    if name in ("bag_total", "bag_delete"):
+        full = [i for i, x in enumerate(model.bg) if x is not None]
+        if not full:
+            return ["bag_new", s, rng.choice([0, 1, 2, 5, 16])]
+        return [name, rng.choice(full)]
+    if name == "bag_tmp":
+        return [name, rng.choice([0, 1, 2, 5, 16])]
+    if name == "bad_bag_new":
+        return [name, rng.choice([1, 3, 6]), rng.randrange(12)]
     if name in ("ar_new", "ar_set_vals"):
         return [name, s, rng.choice([0, 1, 2, 5, 16, 40])]
     if name == "ar_set_name":
@@ -973,11 +1026,11 @@ LEAKABLE = ["item_value", "item_label", "use_item", "sum_items", "item_combine",
             "hi_get", "hd_get", "arr_weights", "bad_arr_weights", "char_arr_none", "bad_char_arr",
             "pt_sum", "pt_out", "pt_scale", "pt_tmp", "ar_tmp", "ar_total", "ar_get_vals", "ar_get_name", "ar_set_vals",
             "ar_set_name", "ar_bad_name", "ar_bad_vals", "char_arr_two", "bad_char_arr_two", "arr_in_out", "bad_arr_in_out",
-            "item_add_all", "bad_item_add_all", "arr_sum_d", "bad_arr_sum_d"]
+            "item_add_all", "bad_item_add_all", "arr_sum_d", "bad_arr_sum_d", "bag_total", "bag_tmp", "bad_bag_new"]
 PY_ONLY = ["box_delete", "bad_vec_sum", "bad_arg", "nomem", "bad_arr_sum", "bad_arr_weights", "char_arr_none", "bad_char_arr",
            "ar_new", "ar_set_vals", "ar_set_name", "ar_total", "ar_get_vals", "ar_get_name", "ar_drop", "ar_tmp", "pt_tmp",
            "ar_bad_name", "ar_bad_vals", "char_arr_two", "bad_char_arr_two", "arr_in_out", "bad_arr_in_out",
-           "bad_item_add_all", "bad_arr_sum_d"] + ["leak_" + n for n in LEAKABLE]
+           "bad_item_add_all", "bad_arr_sum_d", "bag_tmp", "bad_bag_new"] + ["leak_" + n for n in LEAKABLE]
 # char_inout: the Python wrapper hands the str object's own UTF-8 buffer to the library, which
 # upper-cases it in place and thereby corrupts interned strings of the interpreter (a C03 defect;
 # it would make later *values* wrong, so the op is not generated for Python)
@@ -1022,6 +1075,8 @@ OP_NEEDS = {
 for _n in ("item_default", "item_val", "item_delete", "item_value", "item_set", "item_label", "item_twin", "assign",
            "item_release", "item_combine"):
     OP_NEEDS[_n] = _ITEM
+for _n in ("bag_new", "bag_total", "bag_delete", "bag_tmp", "bad_bag_new"):
+    OP_NEEDS[_n] = ("Bag",)
 OP_NEEDS["item_add_all"] = OP_NEEDS["bad_item_add_all"] = OP_NEEDS["item_assoc"] = ("Item",)
 OP_NEEDS["arr_sum_d"] = OP_NEEDS["bad_arr_sum_d"] = ("arrSumD",)
 OP_NEEDS["char_arr_two"] = OP_NEEDS["bad_char_arr_two"] = ("charArrTwo",)
@@ -1075,6 +1130,9 @@ def targeted_op(rng, m, enabled, uniq):
     for s, hd in enumerate(m.bx):
         if hd is not None:
             cands += [["box_value", s], ["box_delete", s], ["box_release", s], ["make_box", s, uniq()]]
+    for s, hd in enumerate(m.bg):
+        if hd is not None:
+            cands += [["bag_delete", s], ["bag_total", s]] if not hd["released"] else [["bag_delete", s]]
     for k, t in (("hi", m.hi), ("hd", m.hd)):
         for s, hd in enumerate(t):
             if hd is not None:
@@ -1159,7 +1217,7 @@ def final_cleanup_ops(driver, ops):
             if o["alive"] and o["owner"] == "caller" and o["kind"] == "item" and hd["oid"] not in seen:
                 seen.add(hd["oid"])
                 out.append(["item_delete", s])
-    for k, t in (("hi", m.hi), ("hd", m.hd)):
+    for k, t in (("hi", m.hi), ("hd", m.hd), ("bag", m.bg)):
         for s, hd in enumerate(t):
             if hd and not hd["released"] and m.objs[hd["oid"]]["alive"] and hd["oid"] not in seen:
                 seen.add(hd["oid"])
